@@ -7,6 +7,10 @@ CONSTANTS
   MaxDstFrag = 1
   MaxQ = 0
   Ops = {"read", "argv", "arrmsg", "memtok"}
+  EmptyBases = {"slice", "null"}
+  ForeignBytes = {34}
+  ArrKinds = {"exact", "shared", "roomy"}
+  MaxFail = 4
 VIEW View
 ACTION_CONSTRAINT Emit
 CHECK_DEADLOCK FALSE
